@@ -25,14 +25,6 @@ class FuncWrapper:
     def set_func(self, func):
         self.__call__ = func
 
-    def __eq__(self, other):
-        if isinstance(other, FuncWrapper):
-            return self._key == other._key
-        return NotImplemented
-
-    def __hash__(self):
-        return hash(self._key)
-
 
 CallableT = TypeVar("CallableT", bound=Callable)
 
